@@ -167,6 +167,13 @@ func (c *FnCtx) evalCall(st *State, call *ast.CallExpr) []Term {
 		return c.inlineCall(st, fi, Term{}, args, call.Pos())
 	}
 	key, fn := c.calleeKey(call)
+	prevArgs := c.curCallArgs
+	var myArgs []string
+	for _, a := range call.Args {
+		myArgs = append(myArgs, types.ExprString(a))
+	}
+	c.curCallArgs = myArgs
+	defer func() { c.curCallArgs = prevArgs }()
 	if key == "" {
 		fk := c.funcValKey(call)
 		sig, _ := c.typeOf(call.Fun).Underlying().(*types.Signature)
@@ -176,9 +183,16 @@ func (c *FnCtx) evalCall(st *State, call *ast.CallExpr) []Term {
 		fv := c.evalExpr(st, call.Fun)
 		fc, ok := c.e.contracts[fk]
 		if !ok {
+			if c.lenient() {
+				args := c.evalArgs(st, call, sig)
+				c.callSiteAsserts(st, "$"+lastSeg(fk), sig, Term{}, nil, args, call.Pos())
+				c.e.trusted["lenient: call of func value "+fk+" in "+c.fi.Key+" abstracted (results havoc, no effect on modelled state)"] = true
+				return c.havocResults(st, sig, "fv")
+			}
 			panic(toolErr("no contract for func value %q called at %s", fk, c.pos(call.Pos())))
 		}
 		args := c.evalArgs(st, call, sig)
+		c.callSiteAsserts(st, fk, sig, Term{}, nil, args, call.Pos())
 		if c.safety {
 			c.nilCheck(st, fv, call.Pos(), "funcvalue")
 		}
@@ -221,7 +235,10 @@ func (c *FnCtx) evalCall(st *State, call *ast.CallExpr) []Term {
 				if recvIsPtr && !haveIsPtr {
 					if _, isIface := recv.T.Underlying().(*types.Interface); !isIface {
 						if dr, _ := isDroppedCallee(key); !dr {
-							panic(unsup("pointer-receiver method on addressable value at %s", c.pos(call.Pos())))
+							if nn, _, _ := derefNamedStruct(recv.T); nn != nil && c.e.d.modelled(nn) {
+								panic(unsup("pointer-receiver method on addressable value at %s", c.pos(call.Pos())))
+							}
+							// opaque dependency struct: the receiver stays an opaque value
 						}
 					}
 				}
@@ -243,11 +260,22 @@ func (c *FnCtx) evalCall(st *State, call *ast.CallExpr) []Term {
 	}
 	fc, ok := c.e.contracts[key]
 	if !ok {
+		if c.lenient() {
+			args := c.evalArgs(st, call, sig)
+			c.callSiteAsserts(st, key, sig, recv, sig.Recv(), args, call.Pos())
+			if fn.Pkg() != nil && c.e.d.inModule(fn.Pkg()) {
+				c.e.trusted["lenient: module function "+shortFn(key)+" has no contract; its call in "+shortFn(c.fi.Key)+" is abstracted (results havoc, effects on modelled state NOT modelled)"] = true
+			} else {
+				c.e.trusted["lenient: dependency function "+key+" abstracted (results havoc, no effect on modelled state)"] = true
+			}
+			return c.havocResults(st, sig, "len")
+		}
 		// tiny accessor convention is not assumed: everything needs a contract
 		panic(toolErr("no contract for %s called from %s at %s", key, c.fi.Key, c.pos(call.Pos())))
 	}
 	fc.Used = true
 	args := c.evalArgs(st, call, sig)
+	c.callSiteAsserts(st, key, sig, recv, sig.Recv(), args, call.Pos())
 	if hasRecv && c.safety {
 		if _, isPtr := sig.Recv().Type().Underlying().(*types.Pointer); isPtr {
 			c.nilCheck(st, recv, call.Pos(), "receiver:"+fn.Name())
@@ -622,7 +650,7 @@ func (c *FnCtx) builtin(st *State, name string, call *ast.CallExpr) []Term {
 		n, stt, _ := derefNamedStruct(t)
 		r := c.newRef(st, "new")
 		ref := Term{S: r, Sort: sV, T: types.NewPointer(t)}
-		if n != nil && c.e.d.inModule(n.Obj().Pkg()) {
+		if n != nil && c.e.d.modelled(n) {
 			for i := 0; i < stt.NumFields(); i++ {
 				f := stt.Field(i)
 				so := d.sortOf(f.Type())
